@@ -482,3 +482,5 @@ B('C14.dnskey-prime-not-tested', ['C14'], [(P + 'dnsrec/record.py', "        if 
 N('benign.rsa-modulus-test-spelled-lt-1', [(P + 'ssh/key.py', "        if parser['n'] <= 0:\n", "        if parser['n'] < 1:\n")])
 # DNSKEY DSA: the width of P, G and Y from the prime itself, not from a key size computed with a floating point logarithm
 B('C08.dsa-width-from-float-key-size', ['C08', 'C05'], [(P + 'dnsrec/record.py', "        key_size = (key_params.prime.bit_length() + 7) // 8\n", "        key_size = key.key_size // 8\n")], mention=['DSA'])
+# the ASN.1 decoder gives up with TypeError / AttributeError on elements that do not fit the schema
+B('C02.ldap-decoder-typeerror-escapes', ['C02'], [(P + 'tls/ldap.py', "        except (KeyError, TypeError, AttributeError) as e:", "        except (KeyError, AttributeError) as e:")], mention=['TypeError'])
